@@ -96,7 +96,7 @@ func runC05(c *Ctx) {
 	for _, r := range rows {
 		if !r.used {
 			c.SetConfig("tables")
-			c.Fail("stale-table", "bounds:"+r.typ+":"+r.loc, "", "reviewed line no longer matches anything (remove it): "+r.typ+" "+r.loc)
+			c.Stale("bounds:"+r.typ+":"+r.loc)
 		}
 	}
 }
@@ -326,6 +326,8 @@ func (a *a6) bounds() {
 		inScope[f] = true
 	}
 	total := 0
+	type pendingFail struct{ key, pos, rk, msg string }
+	var pending []pendingFail
 	var work []*ssa.Function
 	work = append(work, fns...)
 	done := map[*ssa.Function]bool{}
@@ -425,12 +427,25 @@ func (a *a6) bounds() {
 				c.Pass(a.ruleName(), okey, pos, "reviewed: "+r.reason)
 				continue
 			}
+			msg := fmt.Sprintf("cannot prove %s in bounds in %s: no dominating check implies 0 <= lo <= hi <= len", o.kind, FnName(fn))
 			if a.failMsg != nil {
-				c.Fail(a.ruleName(), okey, pos, a.failMsg(o2, fn))
+				msg = a.failMsg(o2, fn)
+			}
+			pending = append(pending, pendingFail{okey, pos, rk, msg})
+		}
+	}
+	// obligations left open: the same expression (or the same kind and ordinal) of the same package under
+	// another function name whose reviewed line matches nothing else is code that was moved into a
+	// helper; it keeps its reviewed line (the reason is repeated in the evidence for re-reading)
+	for _, pf := range pending {
+		if i := strings.LastIndex(pf.key, ":"); i > 0 {
+			if r := findMovedRow(a.rows, pf.rk, pkgOfKey(pf.key), pf.key[i:]); r != nil {
+				r.used = true
+				c.Pass(a.ruleName(), pf.key, pf.pos, "reviewed (moved from "+r.loc[:strings.LastIndex(r.loc, ":")]+"): "+r.reason)
 				continue
 			}
-			c.Fail(a.ruleName(), okey, pos, fmt.Sprintf("cannot prove %s in bounds in %s: no dominating check implies 0 <= lo <= hi <= len", o.kind, FnName(fn)))
 		}
+		c.Fail(a.ruleName(), pf.key, pf.pos, pf.msg)
 	}
 	// call-site obligations for lifted preconditions (iterate: proving a precondition may lift again)
 	for round := 0; round < 4; round++ {
@@ -622,7 +637,7 @@ func (a *a6) progress() {
 			c.Fail("A6-progress", okey, pos, "no loop variable provably advances on every back edge: the loop may not terminate on crafted input")
 		}
 	}
-	c.Floor("A6-progress", n, 30)
+	c.Floor("A6-progress", n, 15)
 }
 
 // searchLenPre: find the smallest constant k of the function such that assuming len(P) >= k for a
@@ -676,4 +691,26 @@ func (a *a6) searchLenPre(pv *prover, fn *ssa.Function, o a6obl, g0 []lin) (*ssa
 		}
 	}
 	return nil, 0, false
+}
+
+func pkgOfKey(key string) string {
+	k := strings.TrimLeft(key, "(*")
+	if i := strings.Index(k, "."); i > 0 {
+		return k[:i]
+	}
+	return ""
+}
+
+func findMovedRow(rows []*reviewRow, typ, pkg, suffix string) *reviewRow {
+	var found *reviewRow
+	for _, r := range rows {
+		if r.typ != typ || r.used || !strings.HasSuffix(r.loc, suffix) || pkgOfKey(r.loc) != pkg {
+			continue
+		}
+		if found != nil {
+			return nil // ambiguous
+		}
+		found = r
+	}
+	return found
 }
